@@ -28,10 +28,126 @@ def decoder_section(ctx, name="decoder-and-token-contracts"):
     return s
 
 
+LEX_ASSUMPTIONS = [
+    "strings are values of an uninterpreted sort (concatenation, length, character-at, substring uninterpreted; distinct "
+    "literals distinct); the grammar and c_info tables are arbitrary finite sets / maps / pair lists of strings",
+    "g.char_allowed(c), Token(text, grammar=g).is_numeric() and token.is_datetime() are total uninterpreted predicates of the text "
+    "(their definitions: grammar table contracts of C15, decoder/Token contracts T_dec)",
+    "pvl.lexer._prepare_comment_tuples and the generator pvl.lexer.lexer (the loop that calls the helpers and decides when to "
+    "yield) are not under contract: covered by the bounded drivers only",
+]
+
+
+def lexer_sections(ctx, pid):
+    """deductive: the per-character helpers of pvl/lexer.py against their contracts (T_lex);
+    bounded: the same contract objects evaluated at run time on the real functions"""
+    import random
+    from ..pyvc.lextheory import LexTheory
+    from ..pyvc import lexnative
+    from ..contracts import lexer as cl
+    s = Section("lexer-helper-contracts", "smt",
+                rule="lex_preserve, lex_singlechar_comments, lex_multichar_comments, lex_comment, lex_char, lex_continue, "
+                     "_prev_char, _next_char: result == spec function of the arguments, for arbitrary grammar tables")
+    t0 = time.time()
+    contracts = cl.contracts()
+    verify_contracts(s, contracts, LexTheory, ["pvl.lexer"], jobs=ctx.jobs)
+    s.assumptions += LEX_ASSUMPTIONS
+    s.seconds = time.time() - t0
+    # run-time evaluation of the same contracts (CPython cross-check of the modelling; failing-input search)
+    r = Section("lexer-helper-runtime-contracts", "bounded", bounded=True,
+                rule="the real helper is called on enumerated arguments and the contract's when/post formulas are evaluated "
+                     "with every uninterpreted symbol interpreted by the real Python operation",
+                bounds={"calls_per_function_and_grammar": 800 if not ctx.thorough else 20000,
+                        "alphabet": "delimiter characters, white space, sign, digit, letter; lexemes <= 14 chars"})
+    t1 = time.time()
+    import pvl.lexer as L
+    import pvl.grammar as G
+    import pvl.decoder as D
+    failed = {}
+    for o in s.obls:
+        if o.status == "failed":
+            failed.setdefault(o.function, o.name)
+    global _RT
+    names = ("PVL", "ODL", "ISIS", "Omni")
+    tasks = [(gn, i) for gn in names for i in range(len(contracts))]
+    _RT = (contracts, ctx.seed, r.bounds["calls_per_function_and_grammar"], pid)
+    import multiprocessing as mp
+    with mp.get_context("fork").Pool(min(ctx.jobs, len(tasks))) as pool:
+        outs = pool.map(_rt_task, tasks, chunksize=1)
+    for (gname, i), (n, keys, sample, notes, bads) in zip(tasks, outs):
+        r.merge_counts(n, keys, sample)
+        r.notes += [x for x in notes if x not in r.notes][:3]
+        for key, what, data in bads:
+            r.violation(key, what, data, obligation=failed.get(contracts[i].target, ""), concrete=True)
+    r.seconds = time.time() - t1
+    return [s, r]
+
+
+_RT = None
+
+
+def _rt_task(task):
+    import random
+    import pvl.lexer as L
+    import pvl.grammar as G
+    import pvl.decoder as D
+    from ..pyvc import lexnative
+    gname, i = task
+    contracts, seed, limit, pid = _RT
+    gcls, dcls = {"PVL": (G.PVLGrammar, D.PVLDecoder), "ODL": (G.ODLGrammar, D.ODLDecoder),
+                  "ISIS": (G.ISISGrammar, D.PVLDecoder), "Omni": (G.OmniGrammar, D.OmniDecoder)}[gname]
+    g = gcls()
+    d = dcls(grammar=g)
+    c_info = L._prepare_comment_tuples(g.comments)
+    c = contracts[i]
+    fn_name = c.target.rsplit(".", 1)[1]
+    fn = getattr(L, fn_name)
+    rnd = random.Random(seed * 131 + i * 7 + len(gname))
+    n, keys, sample, notes, bads = 0, set(), [], [], []
+    for args in lexnative.domain(fn_name, g, d, c_info, rnd, limit):
+        try:
+            bad = lexnative.check_call(c, fn, fn_name, args, g, d, c_info)
+        except KeyError as e:
+            notes.append(f"run-time evaluation skipped a call of {fn_name}: {e!r}")
+            continue
+        n += 1
+        keys.add((gname, fn_name, repr(args)[:200]))
+        if len(sample) < 1:
+            sample.append({"grammar": gname, "function": fn_name, "args": repr(args)[:200]})
+        if bad and len(bads) < 3:
+            what, data = bad
+            bads.append((f"{pid}:lexer:{fn_name}:{gname}:{data.get('clause', data.get('raised', 'exit'))}",
+                         f"{gname}: {what}", {"grammar": gname, "function": fn_name, "args": repr(args), **data}))
+    return n, keys, sample, notes, bads
+
+
 def sections_for(pid, ctx):
     out = []
     if pid in ("C17", "C03", "C14"):
         out.append(decoder_section(ctx))
-    from . import regexsec
-    out += regexsec.sections_for(pid, ctx)
+    if pid in ("C03", "C04"):
+        out += lexer_sections(ctx, pid)
+    if pid in ("C17", "C03", "C14"):
+        from . import regexsec
+        out += regexsec.sections_for(pid, ctx)
     return out
+
+
+def replay_lexer(pid, data):
+    """re-run the lexer-helper sections on the current tree; -> description of what still fails or None"""
+    from ..harness import Ctx
+    fn = str(data.get("function", ""))
+    secs = lexer_sections(Ctx(pid, "quick", 0), pid)
+    for sec in secs:
+        for v in sec.violations:
+            if not fn or fn in v.key or fn in str(v.data.get("function", "")):
+                return v.what
+        for o in sec.obls:
+            if o.status == "failed" and (not fn or fn in o.name):
+                return f"obligation {o.name} failed: {o.detail[:300]}"
+    return None
+
+
+def is_lexer_record(data):
+    return str(data.get("function", "")).startswith(("pvl.lexer.", "lex_", "_prev_char", "_next_char")) or \
+        str(data.get("obligation", "")).startswith("pvl.lexer.")
